@@ -286,6 +286,68 @@ fn run_lab(c: &Case) -> Vec<(String, String)> {
     v
 }
 
+/// The selected proxy cannot be reached (the dial is refused, times out, the name does not resolve,
+/// the connection is reset): the request fails, and nothing is sent anywhere else.
+fn proxy_unreachable_cell(https: bool, proxy_https: bool, kind: &str, with_port: bool) -> Vec<(String, String)> {
+    let dials: std::sync::Arc<std::sync::Mutex<Vec<(String, u16)>>> = Default::default();
+    let d2 = dials.clone();
+    let k = kind.to_string();
+    let world = World::install(false, move |_, dial| {
+        d2.lock().unwrap().push((dial.host.to_ascii_lowercase(), dial.port));
+        if dial.host.eq_ignore_ascii_case("proxy.test") {
+            let ek = match k.as_str() {
+                "refused" => std::io::ErrorKind::ConnectionRefused,
+                "timed-out" => std::io::ErrorKind::TimedOut,
+                "reset" => std::io::ErrorKind::ConnectionReset,
+                _ => std::io::ErrorKind::NotFound,
+            };
+            return Err(std::io::Error::new(ek, "the proxy cannot be reached"));
+        }
+        Ok(Script::plain(b"HTTP/1.1 200 OK\r\nContent-Length: 2\r\n\r\nok".to_vec()))
+    });
+    let purl = url::Url::parse(&format!("{}://proxy.test{}", if proxy_https { "https" } else { "http" }, if with_port { ":3128" } else { "" })).unwrap();
+    let ps = attohttpc::ProxySettings::builder().http_proxy(purl.clone()).https_proxy(purl.clone()).build();
+    let url = format!("{}://o.test/p/q?x=1", if https { "https" } else { "http" });
+    let u2 = url.clone();
+    let res = guarded(move || attohttpc::get(&u2).proxy_settings(ps).header("X-Secret", "s3cr3t").send().and_then(|r| r.bytes()));
+    let what = format!("GET {url} through {purl}, which cannot be reached ({kind})");
+    let seen = dials.lock().unwrap().clone();
+    drop(world);
+    let mut v = Vec::new();
+    match res {
+        Err(p) => v.push(("panic".into(), format!("{what}: {p}"))),
+        Ok(Ok(b)) => v.push(("proxy-bypassed".into(), format!("{what}: the request succeeded ({} body bytes); dials made: {seen:?}", b.len()))),
+        Ok(Err(_)) => {}
+    }
+    let exp_port = if with_port { 3128 } else if proxy_https { 443 } else { 80 };
+    if seen.iter().any(|(h, _)| h != "proxy.test") {
+        v.push(("proxy-bypassed".into(), format!("{what}: a connection to something other than the proxy was attempted: {seen:?}")));
+    } else if seen != vec![("proxy.test".to_string(), exp_port)] {
+        v.push(("wrong-peer".into(), format!("{what}: dials made {seen:?}, expected [proxy.test:{exp_port}] once")));
+    }
+    v
+}
+
+fn proxy_unreachable_cells(ctx: &Ctx) -> u64 {
+    let mut n = 0;
+    for https in [false, true] {
+        // (an http proxy: the dial to an https proxy does not go through the scripted transport)
+        for proxy_https in [false] {
+            for kind in ["refused", "timed-out", "reset", "no-such-host"] {
+                for with_port in [false, true] {
+                    n += 1;
+                    let viol = proxy_unreachable_cell(https, proxy_https, kind, with_port);
+                    ctx.outcome(format!("proxy-unreachable:{}", if viol.is_empty() { "request-failed-nothing-else-dialled" } else { "violation" }));
+                    for (sig, what) in viol {
+                        ctx.violation(format!("C08:{sig}"), what, json!({"engine": "c08", "unreachable": {"https": https, "proxy_https": proxy_https, "kind": kind, "with_port": with_port}}), 1_000_000 + n);
+                    }
+                }
+            }
+        }
+    }
+    n
+}
+
 pub fn cases() -> Vec<Case> {
     let mut v = Vec::new();
     for https in [false, true] {
@@ -316,8 +378,10 @@ pub fn cases() -> Vec<Case> {
 }
 
 pub fn c08(ctx: &Ctx) -> Report {
+    let n_unreachable = proxy_unreachable_cells(ctx);
+    ctx.count("proxy_unreachable_cells", n_unreachable);
     let cs = cases();
-    let n = cs.len() as u64;
+    let n = cs.len() as u64 + n_unreachable;
     let outcomes = std::sync::Mutex::new(BTreeMap::<String, u64>::new());
     cs.par_iter().enumerate().for_each(|(i, c)| {
         let viol = if lab_mode(c) { run_lab(c) } else { run_scripted(c) };
@@ -356,6 +420,11 @@ pub fn c08(ctx: &Ctx) -> Report {
 }
 
 pub fn replay(v: &serde_json::Value) -> i32 {
+    if let Some(u) = v["case"].get("unreachable") {
+        let viol = proxy_unreachable_cell(u["https"].as_bool().unwrap(), u["proxy_https"].as_bool().unwrap(), u["kind"].as_str().unwrap(), u["with_port"].as_bool().unwrap());
+        println!("unreachable-proxy cell {u}\nviolations {viol:?}");
+        return if viol.is_empty() { 0 } else { 1 };
+    }
     let c: Case = serde_json::from_value(v["case"]["case"].clone()).expect("case");
     let viol = if lab_mode(&c) { run_lab(&c) } else { run_scripted(&c) };
     println!("case {c:?}\nviolations {viol:?}");
